@@ -683,8 +683,13 @@ func c17RunLs(c *Ctx) {
 	links := uint64(1)
 	names := []string{"x", "a b", " lead", "trail ", "", "two  blanks", "\xff\x00z", "日本"}
 	modes := []os.FileMode{0o644, os.ModeDir | 0o755, os.ModeSymlink | 0o777, os.ModeSetuid | 0o4755&0o777, os.ModeSticky | os.ModeDir | 0o777, os.ModeNamedPipe | 0o600, 0}
+	// zones at a fixed offset from UTC: the entry's time is formatted in its own location, "now" is taken in time.Local
+	zones := []*time.Location{time.UTC, time.FixedZone("east", 5*3600+1800), time.FixedZone("west", -8*3600), time.FixedZone("far", 14*3600)}
 	for i, mt := range mts {
-		fi := lsInfo{name: names[i%len(names)], size: sizes[i%len(sizes)], mode: modes[i%len(modes)], mt: time.Unix(mt, 0).UTC(),
+		zone := zones[(i/3)%len(zones)]
+		_, tzoff := time.Unix(mt, 0).In(zone).Zone()
+		time.Local = zone
+		fi := lsInfo{name: names[i%len(names)], size: sizes[i%len(sizes)], mode: modes[i%len(modes)], mt: time.Unix(mt, 0).In(zone),
 			uid: ids[i%len(ids)], gid: ids[(i/2)%len(ids)]}
 		n0 := time.Now().UTC().Unix()
 		line := sftp.VerifRunLs(fi)
@@ -696,6 +701,7 @@ func c17RunLs(c *Ctx) {
 		args = append(args, kvz("mneg", "mabs", mt)...)
 		args = append(args, kvz("nneg0", "now0", n0)...)
 		args = append(args, kvz("nneg1", "now1", n1)...)
+		args = append(args, kvz("tzneg", "tz", int64(tzoff))...)
 		args = append(args, kvh("name", []byte(fi.name)))
 		n := c.Case("runls", args...)
 		c.NT(n)
